@@ -166,29 +166,29 @@ theorem lastIdx_lastP (q : Pty → Bool) (seq : List Item) :
 def gpMatch (nname name : Cps) (norm : Bool) (p : Pty) : Bool := (norm && nname == p.name) || name == p.lit
 def gpImp (nname name : Cps) (norm : Bool) (p : Pty) : Bool := gpMatch nname name norm p && p.prio != []
 
-theorem gpScan_spec (nname name : Cps) (norm : Bool) (rev : List Item) (found : Option Nat) :
-    gpScan nname name norm rev found =
-      match lastIdx (liftQ (gpImp nname name norm)) rev.reverse with
+theorem scanBy_spec (m : Pty → Bool) (rev : List Item) (found : Option Nat) :
+    scanBy m rev found =
+      match lastIdx (liftQ (fun p => m p && p.prio != [])) rev.reverse with
       | some i => some i
       | none => match found with
         | some f => some f
-        | none => lastIdx (liftQ (gpMatch nname name norm)) rev.reverse := by
+        | none => lastIdx (liftQ m) rev.reverse := by
   induction rev generalizing found with
-  | nil => cases found <;> simp [gpScan, lastIdx]
+  | nil => cases found <;> simp [scanBy, lastIdx]
   | cons x rest ih =>
     simp only [List.reverse_cons, lastIdx_append_single, List.length_reverse]
     cases x with
     | prop p =>
-      simp only [gpScan, liftQ, gpImp, gpMatch]
-      by_cases hm : ((norm && nname == p.name) || name == p.lit) = true
+      simp only [scanBy, liftQ]
+      by_cases hm : m p = true
       · by_cases hi : (p.prio != []) = true
         · simp [hm, hi]
         · cases found with
           | none => simp [hm, hi, ih]
           | some f => simp [hm, hi, ih]
       · simp [hm, ih]
-    | comment c => simp [gpScan, liftQ, ih]
-    | other c => simp [gpScan, liftQ, ih]
+    | comment c => simp [scanBy, liftQ, ih]
+    | other c => simp [scanBy, liftQ, ih]
 
 theorem getPropertyIdx_spec (seq : List Item) (name : Cps) (norm : Bool) :
     getPropertyIdx seq name norm =
@@ -196,8 +196,31 @@ theorem getPropertyIdx_spec (seq : List Item) (name : Cps) (norm : Bool) :
       | some i => some i
       | none => lastIdx (liftQ (gpMatch (normalize name) name norm)) seq := by
   unfold getPropertyIdx
-  rw [gpScan_spec]
-  simp
+  rw [scanBy_spec]
+  simp only [List.reverse_reverse]
+  rfl
+
+theorem effectiveIdx_spec (seq : List Item) (n : Cps) :
+    effectiveIdx seq n =
+      match lastIdx (liftQ (fun p => p.name == n && p.prio != [])) seq with
+      | some i => some i
+      | none => lastIdx (liftQ (fun p => p.name == n)) seq := by
+  unfold effectiveIdx
+  rw [scanBy_spec]
+  simp only [List.reverse_reverse]
+
+/-- `__effective(n)` is the effective entry of the specification — for every block and every name -/
+theorem effectiveOf_effective (seq : List Item) (n : Cps) : effectiveOf seq n = effective (props seq) n := by
+  unfold effectiveOf effective effectiveBy
+  rw [effectiveIdx_spec]
+  have h1 := lastIdx_lastP (fun p => p.name == n && p.prio != []) seq
+  have h2 := lastIdx_lastP (fun p => p.name == n) seq
+  rw [← h1, ← h2]
+  cases hi : lastIdx (liftQ (fun p => p.name == n && p.prio != [])) seq with
+  | some i =>
+    obtain ⟨p, hp, _⟩ := lastIdx_liftQ_propAt _ _ _ hi
+    simp [hp]
+  | none => simp
 
 theorem getProperty_effectiveBy (seq : List Item) (name : Cps) (norm : Bool) :
     getProperty seq name norm = effectiveBy (gpMatch (normalize name) name norm) (props seq) := by
@@ -1352,15 +1375,15 @@ theorem dictSet_keys_mem (d : List (Cps × Val)) (k : Cps) (v : Val) (h : k ∈ 
 @[simp] theorem isVarNamed_var (nn n : Cps) (v : Val) : isVarNamed nn (.var n v) = (normalize n == nn) := rfl
 @[simp] theorem isVarNamed_other (nn t : Cps) : isVarNamed nn (.other t) = false := rfl
 
-theorem varsOf_replaceFirst (nn : Cps) (v : Val) (seq : List VItem) (hst : normalize nn = nn)
-    (hmem : nn ∈ dkeys (varsOf seq)) : varsOf (replaceFirst nn (.var nn v) seq) = dictSet (varsOf seq) nn v := by
+theorem varsOf_replaceFirst (nn lit : Cps) (v : Val) (seq : List VItem) (hl : normalize lit = nn)
+    (hmem : nn ∈ dkeys (varsOf seq)) : varsOf (replaceFirst nn (.var lit v) seq) = dictSet (varsOf seq) nn v := by
   induction seq with
   | nil => simp [varsOf, dkeys] at hmem
   | cons x t ih =>
     cases x with
     | var n w =>
       by_cases h1 : normalize n = nn
-      · simp [replaceFirst, varsOf, dictSet, h1, hst]
+      · simp [replaceFirst, varsOf, dictSet, h1, hl]
       · have h2 : (normalize n == nn) = false := beq_eq_false_iff_ne.mpr h1
         simp only [varsOf, dkeys, List.map_cons, List.mem_cons] at hmem
         rcases hmem with hmem | hmem
@@ -1523,45 +1546,48 @@ theorem vRemove_inv (s : Vars) (name : Cps) (h : VInv s) :
 
 theorem vSet_unchanged_or (env : Env) (s : Vars) (name value : Cps) :
     (vSet env s name value).st = s ∨
-    ∃ v, env.parseValue value = some v ∧
+    ∃ v lit, env.parseValue value = some v ∧ firstIdent (env.tokenize name) = some lit ∧
       (vSet env s name value).st =
-        { s with seq := (if (vKeys s).contains (normalize name)
-                          then replaceFirst (normalize name) (.var (normalize name) v) s.seq
-                          else s.seq ++ [.var (normalize name) v]),
-                 vars := dictSet s.vars (normalize name) v } := by
+        { s with seq := (if (vKeys s).contains (normalize lit)
+                          then replaceFirst (normalize lit) (.var lit v) s.seq
+                          else s.seq ++ [.var lit v]),
+                 vars := dictSet s.vars (normalize lit) v } := by
   unfold vSet
   by_cases hr : s.readonly = true
   · left; simp [hr]
   · simp only [hr, Bool.false_eq_true, if_false]
-    by_cases hi : env.isIdent (normalize name) = true
+    by_cases hi : env.isIdent name = true
     · simp only [hi, Bool.not_true, Bool.false_eq_true, if_false]
       cases hv : env.parseValue value with
       | none => left; simp only []; cases logCall env <;> rfl
-      | some v => right; exact ⟨v, rfl, rfl⟩
+      | some v =>
+        simp only []
+        cases hl : firstIdent (env.tokenize name) with
+        | none => left; rfl
+        | some lit => right; exact ⟨v, lit, rfl, rfl, rfl⟩
     · left
       simp only [hi, Bool.not_false, if_true]
       cases logCall env <;> rfl
 
-/-- T10.7 `setVariable` keeps the invariant — for names whose normal form is a fixpoint of `normalize` -/
-theorem vSet_inv (env : Env) (s : Vars) (name value : Cps) (h : VInv s)
-    (hst : normalize (normalize name) = normalize name) : VInv (vSet env s name value).st := by
-  rcases vSet_unchanged_or env s name value with hu | ⟨v, _, hu⟩
+/-- T10.7 `setVariable` keeps the invariant — for every name -/
+theorem vSet_inv (env : Env) (s : Vars) (name value : Cps) (h : VInv s) : VInv (vSet env s name value).st := by
+  rcases vSet_unchanged_or env s name value with hu | ⟨v, lit, _, _, hu⟩
   · rw [hu]; exact h
   · rw [hu]
-    by_cases hc : (vKeys s).contains (normalize name) = true
-    · have hmem : normalize name ∈ dkeys s.vars := by simpa [vKeys, dkeys] using hc
+    by_cases hc : (vKeys s).contains (normalize lit) = true
+    · have hmem : normalize lit ∈ dkeys s.vars := by simpa [vKeys, dkeys] using hc
       simp only [hc, if_true]
       refine ⟨?_, ?_⟩
       · simp only []
-        rw [varsOf_replaceFirst _ _ _ hst (by rw [← h.1]; exact hmem), h.1]
+        rw [varsOf_replaceFirst _ lit _ _ rfl (by rw [← h.1]; exact hmem), h.1]
       · simp only []
         rw [dictSet_keys_mem _ _ _ hmem]; exact h.2
-    · have hmem : normalize name ∉ dkeys s.vars := by simpa [vKeys, dkeys] using hc
+    · have hmem : normalize lit ∉ dkeys s.vars := by simpa [vKeys, dkeys] using hc
       simp only [hc, Bool.false_eq_true, if_false]
       refine ⟨?_, ?_⟩
       · simp only []
         rw [varsOf_append, dictSet_new _ _ _ hmem, h.1]
-        simp [varsOf, hst]
+        simp [varsOf]
       · simp only []
         rw [dictSet_new _ _ _ hmem]
         simp only [dkeys, List.map_append, List.map_cons, List.map_nil]
@@ -1727,14 +1753,15 @@ theorem dkeys_dictSet_subset (d : List (Cps × Val)) (k : Cps) (v : Val) (a : Cp
         · exact Or.inr (Or.inr h)
 
 theorem vSet_keysStable (env : Env) (s : Vars) (name value : Cps) (hk : KeysStable s)
-    (hst : normalize (normalize name) = normalize name) : KeysStable (vSet env s name value).st := by
-  rcases vSet_unchanged_or env s name value with hu | ⟨v, _, hu⟩
+    (hst : ∀ lit, firstIdent (env.tokenize name) = some lit → normalize (normalize lit) = normalize lit) :
+    KeysStable (vSet env s name value).st := by
+  rcases vSet_unchanged_or env s name value with hu | ⟨v, lit, _, hl, hu⟩
   · rw [hu]; exact hk
   · rw [hu]
     intro k hkm
     simp only [vKeys] at hkm
     rcases dkeys_dictSet_subset _ _ _ k hkm with h | h
-    · rw [h]; exact hst
+    · rw [h]; exact hst lit hl
     · exact hk k h
 
 theorem vRemove_keysStable (s : Vars) (name : Cps) (hk : KeysStable s) : KeysStable (vRemove s name).st := by
@@ -1819,13 +1846,14 @@ def vrun (env : Env) : Vars → List (Bool × VOp) → Vars
   | s, [] => s
   | s, o :: os => vrun env (vstep env s o.1 o.2) os
 
-/-- the guard of `vars_run_partial`: names given to `setVariable` whose normal form is a fixpoint of `normalize` -/
-def VOpStable : VOp → Prop
-  | .set n _ => normalize (normalize n) = normalize n
+/-- names (identifiers given to `setVariable`, identifiers of a parsed text) whose normal form is a fixpoint of
+`normalize`: only then does a look-up by a *listed* key find the variable (`getVariableValue(keys()[i])`) -/
+def VOpStable (env : Env) : VOp → Prop
+  | .set n _ => ∀ lit, firstIdent (env.tokenize n) = some lit → normalize (normalize lit) = normalize lit
   | .setText items => ∀ x ∈ items, VSrcStable x
   | _ => True
 
-/-- the witness of `C10-escaped-backslash-name` in the variables block -/
+/-- the former witness of `C10-escaped-backslash-name` in the variables block (fixed) -/
 def escVars : Vars :=
   (vSet exampleEnv (vSet exampleEnv { vars := [], seq := [] } escLit [49]).st escLit [50]).st
 
